@@ -973,12 +973,11 @@ impl BuiltInFunction {
                     unreachable!()
                 };
 
-                Ok((
-                    Some(Primitive::Str(
-                        String::from_utf8_lossy(&[*byte]).into_owned(),
-                    )),
-                    None,
-                ))
+                if !byte.is_ascii() {
+                    bail!("byte {byte} is not an ASCII character")
+                }
+
+                Ok((Some(Primitive::Str(char::from(*byte).to_string())), None))
             }
             Self::FloatFPart => {
                 let Some(Primitive::Float(float)) = arguments.first() else {
